@@ -367,6 +367,64 @@ func (c *Ctx) checkExact(r *report.Result, m *Machine, doc oracle.Op, row *Row, 
 		r.Ob("F-exact", got == want, name+" "+what, where, fmt.Sprintf("%s is %s, documented %s", what, got.String(), want.String()))
 	}
 	if !doc.Prefixed {
+		// bytes handed to the decoder by the plain stores, in write order: each is a copy of a documented source
+		{
+			word := func(cell string, lo int) []ai.Bit {
+				sy := c.symOf(m, cell)
+				out := make([]ai.Bit, 8)
+				for i := range out {
+					out[i] = srcBit(sy, lo+i)
+				}
+				return out
+			}
+			immSym := it.NewSym("operand byte", ai.CellKey{})
+			var wantW [][]ai.Bit
+			switch {
+			case k == 0x02 || k == 0x12 || k == 0x22 || k == 0x32 || k == 0xe0 || k == 0xe2 || k == 0xea:
+				wantW = [][]ai.Bit{regBits("a")}
+			case x == 1 && y == 6 && z != 6:
+				wantW = [][]ai.Bit{regBits(r8names[z])}
+			case k == 0x36:
+				wantW = [][]ai.Bit{word("", -1)}
+				for i := range wantW[0] {
+					wantW[0][i] = srcBit(immSym, i)
+				}
+			case k == 0x08:
+				wantW = [][]ai.Bit{word("sp", 0), word("sp", 8)}
+			case x == 3 && z == 5 && y&1 == 0: // PUSH rr
+				hi, lo := []string{"b", "d", "h", "a"}[y>>1], []string{"c", "e", "l", "f"}[y>>1]
+				wantW = [][]ai.Bit{regBits(hi), regBits(lo)}
+			case x == 3 && z == 7: // RST pushes the address of the next instruction (pc after the fetch)
+				wantW = [][]ai.Bit{word("pc", 8), word("pc", 0)}
+			}
+			if wantW != nil {
+				_, calls, ok := c.runRow(m, row, nil, ai.NewSymInt(8, false, immSym))
+				var got []*ai.Int
+				for _, mc := range calls {
+					if mc.Write {
+						got = append(got, mc.Val)
+					}
+				}
+				good := ok && len(got) == len(wantW)
+				var gs, ws []string
+				for i := range wantW {
+					ws = append(ws, "["+bitsString(wantW[i])+"]")
+					if i < len(got) && got[i] != nil {
+						gs = append(gs, "["+bitsString(got[i].Bits)+"]")
+						for b := 0; b < 8; b++ {
+							w, g := wantW[i][b], got[i].Bits[b]
+							// (F's low nibble is 0 by invariant: PUSH AF may push it as stored or as constant 0)
+							if g != w && !(k == 0xf5 && i == 1 && b < 4 && g.K == ai.BZero) {
+								good = false
+							}
+						}
+					} else {
+						good = false
+					}
+				}
+				r.Ob("F-exact", good, name+" stored bytes", where, fmt.Sprintf("bytes written (msb first, in write order) %v, documented %v", gs, ws))
+			}
+		}
 		switch {
 		case x == 1 && k != 0x76 && y != 6 && z != 6 && y != z:
 			expect("register "+r8names[y], postInt(row, r8names[y]), regBits(r8names[z]))
